@@ -81,13 +81,13 @@ type Step struct {
 // engine and on K fresh engines) or "rebase" (the whole reference table is re-computed on
 // fresh engines and compared).
 type Case struct {
-	Mode   string        `json:"mode,omitempty"`
-	Shared bool          `json:"shared,omitempty"` // mergeable programs share one engine and one filesystem
+	Mode   string `json:"mode,omitempty"`
+	Shared bool   `json:"shared,omitempty"` // mergeable programs share one engine and one filesystem
 	// Recheck: after the history, every (program, entry, variant) it used is rendered on yet
 	// another fresh engine and compared with the reference computed before the history.
-	Recheck bool `json:"recheck,omitempty"`
-	Defs   []cat.Program `json:"defs,omitempty"`   // programs defined by the case itself (generated ones, replays)
-	Steps  []Step        `json:"steps,omitempty"`
+	Recheck bool          `json:"recheck,omitempty"`
+	Defs    []cat.Program `json:"defs,omitempty"` // programs defined by the case itself (generated ones, replays)
+	Steps   []Step        `json:"steps,omitempty"`
 }
 
 func (s Step) k() int {
